@@ -141,6 +141,8 @@ inductive Builtin
   | isupper                                     -- `s.isupper()` (ASCII letters; the core applies it to one character)
   | jsonDumps | jsonLoads                       -- `json.dumps(v, indent=None)` / `json.loads(text)` (Model/Json.lean)
   | all | any                                   -- `all(xs)` / `any(xs)` over a list already evaluated
+  | find | splitOnce | lstrip                   -- `s.find(sub)`, `s.split(sep, 1)`, `s.lstrip()` (ASCII white space)
+  | reSearchSpan | reSubPieces                  -- `re.search` whose match object also knows its span; the pieces of `re.sub(pat, fn, s)`
 deriving Repr, DecidableEq
 inductive MutOp | append | add | remove
 deriving Repr, DecidableEq
@@ -577,6 +579,15 @@ def isInfixC (a : List Char) : List Char → Bool
   | [] => a.isEmpty
   | c :: r => isPrefixC a (c :: r) || isInfixC a r
 
+/-- `s.find(sub)`: index of the first occurrence, scanning from `i` -/
+def findFrom (sub : List Char) : Nat → List Char → Option Nat
+  | i, [] => if sub.isEmpty then some i else none
+  | i, c :: r => if isPrefixC sub (c :: r) then some i else findFrom sub (i + 1) r
+
+/-- ASCII white space as `str.lstrip()` / `str.isspace()` see it (the six ASCII characters; other Unicode white space is
+outside the modelled domain) -/
+def isSpaceC (c : Char) : Bool := c == ' ' || c == '\t' || c == '\n' || c == '\r' || c == Char.ofNat 11 || c == Char.ofNat 12
+
 /-- `s.replace(a, b)` for non-empty `a`: left to right, non-overlapping -/
 def replaceAll (a b : List Char) : Nat → List Char → List Char
   | 0, s => s
@@ -698,6 +709,33 @@ def builtinF (r : Rec) (P : Program) (b : Builtin) (vs : List Val) : R Val :=
   | .jsonLoads, [.str t] => match jsonLoad t with
     | some j => pure (jsonToVal j)
     | none => throw (.exc K.ValueError)                    -- json.JSONDecodeError is a ValueError
+  | .find, [.str s, .str sub] => match findFrom sub 0 s with
+    | some i => pure (.int (Int.ofNat i))
+    | none => pure (.int (-1))
+  | .splitOnce, [.str s, .str sep] =>
+    if sep.isEmpty then throw (.exc K.ValueError) else
+    match findFrom sep 0 s with
+    | some i => pure (.tuple [.str (s.take i), .str (s.drop (i + sep.length))])
+    | none => pure (.tuple [.str s])
+  | .lstrip, [.str s] => pure (.str (s.dropWhile isSpaceC))
+  -- re.search with the span of the match: the match object gets the further attribute `sf` = (start, end)
+  | .reSearchSpan, [.str pat, .str s, .bool ic, .cls mc, .int tf, .int sf] =>
+    match Re.pySearch ic pat s with
+    | none => throw (.stuck 16)
+    | some none => pure .none
+    | some (some m) => match matchVal mc tf.toNat s m with
+      | .obj c fs => pure (.obj c (fs ++ [(sf.toNat, .tuple [.int (Int.ofNat m.span.1), .int (Int.ofNat m.span.2)])]))
+      | v => pure v
+  -- re.sub(pat, fn, s): the unmatched stretches (texts) and the matches (match objects), left to right; the caller
+  -- applies `fn` to the match objects and joins
+  | .reSubPieces, [.str pat, .str s, .bool ic, .cls mc, .int tf] =>
+    match Re.pyFinditer ic pat s with
+    | none => throw (.stuck 16)
+    | some ms =>
+      let rec go : Nat → List Re.MatchObj → List Val
+        | i, [] => [.str (s.drop i)]
+        | i, m :: r => .str ((s.drop i).take (m.span.1 - i)) :: matchVal mc tf.toNat s m :: go m.span.2 r
+      pure (.tuple (go 0 ms))
   | .all, [v] => match iterItems P v with
     | some xs => pure (.bool (xs.all truthy))
     | none => throw (.exc K.TypeError)
